@@ -1951,8 +1951,8 @@ Examples:
     >>> _flat(par)
     ['x','x','x','y','y','z']
 """
-  from mystic.tools import flatten
-  return list(flatten(params))
+  from mystic.tools import flatten, list_or_tuple_or_ndarray
+  return list(flatten(params, to_expand=list_or_tuple_or_ndarray))
 
 
 def _nested(params, npts):
